@@ -72,6 +72,7 @@ type run struct {
 	dead                                   []stored // deleted objects (for delete-absent)
 	next                                   int
 	grid                                   int // 0 = float coords, else grid size
+	scale                                  float64
 	seenDelete, seenMultiDelete, nnOnMulti bool
 	lastDepth                              int
 	states                                 map[uint64]struct{}
@@ -114,7 +115,7 @@ func (r *run) fail(class, detail, format string, a ...interface{}) {
 
 func (r *run) coord(label string) float64 {
 	if r.grid > 0 {
-		return float64(r.t.Choose(r.grid, label))
+		return float64(r.t.Choose(r.grid, label)) * r.scale
 	}
 	// floats with a few decimal digits and occasionally many
 	if r.t.OneIn(4, "coord-fine") {
@@ -135,7 +136,7 @@ func (r *run) newObj() stored {
 		p := geom.Point{X: r.coord("px"), Y: r.coord("py")}
 		b := &geom.Bounds{Min: p, Max: p}
 		if r.t.Bool("degenerate-line") {
-			b.Max.X += float64(r.t.Range(0, 3, "len"))
+			b.Max.X += float64(r.t.Range(0, 3, "len")) * r.scale
 		}
 		return stored{obj: b, bb: *b, id: id}
 	case 3:
@@ -149,7 +150,7 @@ func (r *run) newObj() stored {
 		x, y := r.coord("bx"), r.coord("by")
 		var w, h float64
 		if r.grid > 0 {
-			w, h = float64(r.t.Range(0, 4, "bw")), float64(r.t.Range(0, 4, "bh"))
+			w, h = float64(r.t.Range(0, 4, "bw"))*r.scale, float64(r.t.Range(0, 4, "bh"))*r.scale
 		} else {
 			w, h = r.t.Unit("bw")*10, r.t.Unit("bh")*10
 		}
@@ -206,10 +207,14 @@ func (r *run) exec() {
 	if r.max == 50 && t.Bool("cfg-route-params") {
 		r.min = 25
 	}
+	r.scale = 1
 	if t.Choose(3, "cfg-coords") != 2 {
 		r.grid = 4 + t.Choose(13, "cfg-grid")
+		// grid spacing: 1 (integer ties), dyadic and non-dyadic fractions
+		// (sub-unit distances, rounding), and a large spacing
+		r.scale = []float64{1, 1, 0.125, 0.1, 1.0 / 3, 1000}[t.Choose(6, "cfg-scale")]
 	}
-	r.log.Eventf("config min=%d max=%d grid=%d", r.min, r.max, r.grid)
+	r.log.Eventf("config min=%d max=%d grid=%d scale=%g", r.min, r.max, r.grid, r.scale)
 	if p, v, st := core.Protect(func() { r.tree = rtree.NewTree(r.min, r.max) }); p {
 		r.fail("panic", "NewTree", "NewTree(%d,%d) panicked: %v %s", r.min, r.max, v, core.TrimStack(st, 3))
 		return
@@ -605,7 +610,7 @@ func (r *run) queryBox() geom.Bounds {
 	case 1: // touching an existing box at its corner/edge
 		if len(r.model) > 0 {
 			o := r.model[t.Choose(len(r.model), "q-touch")]
-			w := float64(t.Range(0, 3, "q-w"))
+			w := float64(t.Range(0, 3, "q-w")) * r.scale
 			switch t.Choose(4, "q-side") {
 			case 0:
 				return geom.Bounds{Min: geom.Point{X: o.bb.Max.X, Y: o.bb.Min.Y}, Max: geom.Point{X: o.bb.Max.X + w, Y: o.bb.Max.Y}}
@@ -626,7 +631,7 @@ func (r *run) queryBox() geom.Bounds {
 		x, y := r.coord("qx"), r.coord("qy")
 		var w, h float64
 		if r.grid > 0 {
-			w, h = float64(t.Range(0, r.grid, "qw")), float64(t.Range(0, r.grid, "qh"))
+			w, h = float64(t.Range(0, r.grid, "qw"))*r.scale, float64(t.Range(0, r.grid, "qh"))*r.scale
 		} else {
 			w, h = t.Unit("qw")*60, t.Unit("qh")*60
 		}
@@ -651,10 +656,10 @@ func (r *run) queryPoint() geom.Point {
 		}
 		fallthrough
 	case 1: // outside the populated area
-		return geom.Point{X: -10 - r.coord("p-out"), Y: 150 + r.coord("p-out")}
+		return geom.Point{X: -10*r.scale - r.coord("p-out"), Y: 150*r.scale + r.coord("p-out")}
 	default:
 		if r.t.Bool("p-half") {
-			return geom.Point{X: r.coord("px") + 0.5, Y: r.coord("py") + 0.5}
+			return geom.Point{X: r.coord("px") + 0.5*r.scale, Y: r.coord("py") + 0.5*r.scale}
 		}
 		return geom.Point{X: r.coord("px"), Y: r.coord("py")}
 	}
